@@ -134,9 +134,10 @@ func runC07(c *ShardCtx) {
 		}
 		rejected := r.HaveLR
 		if r.Err != "" {
-			// e.g. "no leader" errors are C19/C08 territory
+			// the analysis itself refused the grammar (a component without a leader): the grammar
+			// is rejected whatever the flag says; it must then really have a cycle
 			c.Res.Counters["prepare_error"]++
-			return
+			rejected = true
 		}
 		an := peg.Analyze(g)
 		// (every rule is a possible entrypoint of the generated parser: a rule that the first rule
@@ -293,6 +294,36 @@ func runC07(c *ShardCtx) {
 				}
 			}
 		}
+	}
+	// components without a leader: two (three) rules that each reach themselves AND each other, so
+	// that no rule lies on every cycle (the analysis cannot choose a leader; without the flag the
+	// grammar still has to be rejected)
+	{
+		lit := peg.Lit
+		selfAlts := []func(r string) *peg.Expr{func(r string) *peg.Expr { return peg.Seq(peg.Ref(r), lit("x")) }, func(r string) *peg.Expr { return peg.Seq(peg.Opt(lit("o")), peg.Ref(r), lit("x")) }, func(r string) *peg.Expr { return peg.Seq(peg.And(peg.Ref(r)), lit("x")) }}
+		otherAlts := []func(r string) *peg.Expr{func(r string) *peg.Expr { return peg.Ref(r) }, func(r string) *peg.Expr { return peg.Seq(peg.Ref(r), lit("z")) }, func(r string) *peg.Expr { return peg.Seq(peg.Not(lit("q")), peg.Ref(r)) }}
+		for _, sa := range selfAlts {
+			for _, oa := range otherAlts {
+				for _, sb := range selfAlts {
+					for _, ob := range otherAlts {
+						for order := 0; order < 2; order++ {
+							ra := &peg.Rule{Name: "A", Expr: peg.Choice(sa("A"), oa("B"), lit("a"))}
+							rb := &peg.Rule{Name: "B", Expr: peg.Choice(sb("B"), ob("A"), lit("b"))}
+							if order == 1 {
+								ra.Expr = peg.Choice(oa("B"), sa("A"), lit("a"))
+							}
+							check(&peg.Grammar{Rules: []*peg.Rule{ra, rb}})
+							check(&peg.Grammar{Rules: []*peg.Rule{{Name: "S", Expr: peg.Seq(lit("s"), peg.Ref("B"))}, {Name: "B", Expr: rb.Expr.Clone()}, {Name: "A", Expr: ra.Expr.Clone()}}})
+						}
+					}
+				}
+			}
+		}
+		// three rules, every rule refers to both others
+		check(&peg.Grammar{Rules: []*peg.Rule{
+			{Name: "A", Expr: peg.Choice(peg.Seq(peg.Ref("B"), lit("x")), peg.Seq(peg.Ref("C"), lit("x")), lit("a"))},
+			{Name: "B", Expr: peg.Choice(peg.Seq(peg.Ref("C"), lit("y")), peg.Seq(peg.Ref("A"), lit("y")), lit("b"))},
+			{Name: "C", Expr: peg.Choice(peg.Seq(peg.Ref("A"), lit("z")), peg.Seq(peg.Ref("B"), lit("z")), lit("c"))}}})
 	}
 	// two rules
 	p2set, r2set := reduced, refReduced
